@@ -101,3 +101,25 @@ pub fn reload_check(r: &mut Runner) -> Result<(),String> {
     if bytes2!=bytes { return Err("second to_bytes differs from the first".to_string()); }
     Ok(())
 }
+
+/// parameters the model needs, read off the freshly formatted volume by the independent reader:
+/// "total lo used0(csv) rootcap extent_slots sub_first sub_more"
+pub fn init_record(fs: &str,label: &str,disk: &mut Box<dyn DiskFS>) -> String {
+    let kname = label.split(':').nth(1).unwrap_or("5.25in");
+    let a = match alpha_of(fs,label,disk) { Some(a) => a, None => return "none".to_string() };
+    let lo = if a.units_are_clusters {2} else {0};
+    let mut used: Vec<usize> = a.marked_used.clone();
+    used.sort(); used.dedup();
+    let used_s = if used.is_empty() { "-".to_string() } else { used.iter().map(|u| u.to_string()).collect::<Vec<String>>().join(",") };
+    let (rootcap,ext,sf,sm) = match fs {
+        "dos33" => (105,0,0,0), "dos32" => (84,0,0,0), "prodos" => (51,0,12,13), "pascal" => (77,0,0,0),
+        "cpm2" | "cpm3" => { let d = a2kit::bios::dpb::DiskParameterBlock::create(&kind_of(kname)); (d.drm as usize + 1,d.extent_capacity()/d.block_size(),0,0) },
+        "fat" => {
+            let img = disk.get_img();
+            let boot = img.read_block(Block::FAT((0,1))).unwrap_or(vec![0;512]);
+            match fsck::fat::params_from_boot(&boot) { Some(p) => { let cb = p.bytes_per_sec*p.sec_per_clus; (p.root_entries,0,cb/32-2,cb/32) }, None => (0,0,0,0) }
+        },
+        _ => (0,0,0,0)
+    };
+    format!("{} {} {} {} {} {} {}",a.total_units,lo,used_s,rootcap,ext,sf,sm)
+}
